@@ -220,7 +220,8 @@ func main() {
 		if c.State != "member" && len(o.alphabet) > 0 {
 			r.Violation("replay:nonmember-acts", fmt.Sprintf("%+v made %d calls", c, len(o.alphabet)), c)
 		}
-		r.Finish()
+		irworld.CloseAll()
+	r.Finish()
 	}
 
 	// 1. enumerate what the real server registered
@@ -337,5 +338,6 @@ func main() {
 		"worker pools have capacity 1 and are never saturated (one event in flight)",
 		"N3-witness (contract account) owners are not modelled: owners and token issuers sign with ECDSA keys",
 		"calls classified as needing alphabet authority: Invoke, NotaryInvoke, NotaryInvokeNotAlpha, CallWithAlphabetWitness, NotarySignAndInvokeTX, TransferGas, UpdateNotaryList, UpdateNeoFSAlphabetList, runAlphabetNotaryScript; notary deposits of the node's own GAS are recorded but not judged")
+	irworld.CloseAll()
 	r.Finish()
 }
